@@ -33,6 +33,11 @@ ASSUMPTIONS = ['pandas arithmetic of two Series on one index is pointwise with N
                'sub_ / div_ fail it for a list on the left (known finding C08-A3, theorems sub/div_list_left_not_left_fold) and agree for a list on the right by value '
                '(sub_div_right_list_left_fold). sub_ / div_ / pow_ have no default b: a list alone (list-none) is generated for add_ / mul_ only; under columns = "oj" the neutral element '
                'is applied per step of the fold (oj_neutral_per_step)',
+               'SCALARS IN NUMPY SPELLINGS (round l4, review w4 F1 / F2; npx lines, implementation only): np.int8 .. np.int64 / np.uint8 / np.uint16, np.float32, np.bool_ and 0-d arrays '
+               'are scalars of the quantifier; the call must answer what it answers for the same numbers as python bool / int / float (that call is what the model is compared with) and '
+               'add_ / mul_ / df_sum / df_mean / df_count of a list must not depend on its order. The arithmetic of NARROW FLOATS is float rounding and not generated: np.float16(2) * 70000 '
+               'is inf and np.float32 products beyond 24 bits are rounded by numpy before they meet a Series (a np.float32 is drawn beside small integers only); two scalars without any '
+               'timeseries (sub_(np.int8(100), np.int8(-100))) are numpy\'s own arithmetic, outside the quantifier',
                "COLUMN LABELS (round k4, review v4 2.1 / 2.2): names are strings in the model and single letters in the generators. Tuple labels (MultiIndex columns) are NOT modelled / generated: with exactly two operands presync's column loop hands a tuple-valued `column` keyword out member by member (loops._item_by_i) - add_(fa, fb) raises, columns='oj' answers a wrong Series silently; labels that cannot be ordered with one another (['a', 1] vs [1, 'b'], None) raise TypeError in sorted(columns) when the headers differ. 'arbitrary column sets' is read as sets of mutually orderable non-tuple labels"]
 S = 4
 nan = float('nan')
@@ -56,12 +61,30 @@ def enc_in(x):
         return '(L' + ''.join(' ' + enc_in(v) for v in x) + ')'
     if x is None:
         return 'N'
+    if isinstance(x, np.ndarray) and x.ndim == 0:     # npx lines only: a 0-d array as a scalar
+        return '(npnum %s %s)' % ('arr0i' if x.dtype.kind in 'iu' else 'arr0f', W.enc_v(x.item(), S))
+    if isinstance(x, np.bool_):
+        return '(npnum bool %s)' % W.enc_v(int(x), S)
+    if isinstance(x, np.generic) and type(x) is not np.float64:      # npx lines only: np.int8 .. np.float32 spellings of a scalar
+        return '(npnum %s %s)' % (x.dtype.name, W.enc_v(float(x), S))
     return '(num %s)' % W.enc_v(x, S)
 
 
-def dec_in(sx):
+NPKINDS = {'int8': np.int8, 'uint8': np.uint8, 'int16': np.int16, 'uint16': np.uint16, 'int32': np.int32, 'int64': np.int64,
+           'float32': np.float32, 'bool': np.bool_, 'arr0i': lambda v: np.array(int(v)), 'arr0f': lambda v: np.array(float(v))}
+
+
+NPFLOATKINDS = ('float32', 'arr0f')
+
+
+def dec_in(sx, numpy_spelling=True):
     if sx == 'N':
         return None
+    if sx[0] == 'npnum':      # a scalar in a numpy spelling (npx lines); numpy_spelling = False: the SAME number as a python bool / int / float
+        v = W.dec_v(sx[2], S)
+        if numpy_spelling:
+            return NPKINDS[sx[1]](v if (sx[1] in NPFLOATKINDS or math.isnan(v)) else int(v))
+        return bool(v) if sx[1] == 'bool' else v if (sx[1] in NPFLOATKINDS or math.isnan(v)) else int(v)
     if sx[0] == 'ts':
         return W.dec_series(sx[1], S)
     if sx[0] == 'df':
@@ -70,7 +93,7 @@ def dec_in(sx):
         v = W.dec_v(sx[1], S)
         return int(v) if not math.isnan(v) and v == int(v) and int(v) % 2 == 1 else v     # odd whole numbers travel as python ints
     if sx[0] == 'L':
-        return [dec_in(v) for v in sx[1:]]
+        return [dec_in(v, numpy_spelling) for v in sx[1:]]
     raise ValueError('bad operand')
 
 
@@ -422,7 +445,57 @@ def gen_reduce(rng, tier):
                    lines=['(ops redx %s %s %s %s %s %s)' % (op, enc_in(a), enc_in(b), how, m, ch)])
 
 
+NPINTS = [np.int8(100), np.int8(100), np.int8(64), np.int8(-128), np.int8(127), np.int8(3), np.uint8(200), np.uint8(200), np.uint8(255), np.uint8(16),
+          np.int16(300), np.int16(30000), np.uint16(65535), np.int32(70000), np.int64(100), np.int64(3)]
+NPFLOATS = [np.float32(0.5), np.float32(1.5), np.float32(-0.25), np.float32(256.0)]
+NPSMALL = [np.int8(3), np.int8(64), np.uint8(16), np.int64(3), np.int16(-4)]     # beside a np.float32: python int * np.float32 is a float32 (24 bits), nothing may be rounded
+NPDIVS = [np.bool_(False), np.bool_(True), np.array(0), np.array(2), np.array(0.), np.array(0.5), np.int8(0), np.int8(2), np.uint8(0), np.uint8(4), np.int64(0),
+          np.float32(0.0), np.float32(0.5), np.float32(-2.0), np.int16(-4)]
+
+
+def gen_npscalars(rng, tier):
+    """SCALARS IN THEIR NUMPY SPELLINGS (review w4 F1 / F2; npx lines, implementation only - the model's scalars are numbers, the
+    spelling of a number is not on its wire): "scalars broadcast", "lists of operands reduce left to right", "add_ and mul_ are
+    commutative", "division by zero yields NaN" are stated for scalars, and a np.int8 / np.uint8 / np.int16 / np.float32 / np.bool_ /
+    0-d array IS a scalar (is_num admits every np.integer since e030b7f).  `check_np`: the call must return what the call with the same
+    numbers as python bool / int / float returns (that call is what the bin / agg / redx lines compare with the model), and add_ /
+    mul_ / df_sum / df_mean / df_count of a list must not depend on the order of the list.  The integers are large for their width
+    (100 * 100, 200 + 200: numpy's scalar arithmetic wraps around silently), the divisors include every spelling of zero."""
+    n = 200 if tier == 'quick' else 5000
+    for _ in range(n):
+        name = rng.choice(['add', 'mul', 'add', 'mul', 'sub', 'div', 'div', 'sum', 'mean', 'count'])
+        how, m = rng.choice(['ij', 'oj']), rng.choice(['N', 'N', 'N', 'ffill'])
+        kind = rng.choice(['ts', 'ts', 'df'])
+        cs = rng.choice(COLSETS)
+        mk = lambda vals: (rand_series(rng, A.rand_days(rng, 'overlap', []), vals) if kind == 'ts' else rand_frame(rng, A.rand_days(rng, 'overlap', []), vals, cs))
+        if name == 'div':
+            z = rng.choice(NPDIVS)
+            shape = rng.choice(['x-num', 'x-num', 'x-num', 'num-x', 'list-num'])
+            a, b = (mk(VALS), z) if shape == 'x-num' else (z, mk(DIVS)) if shape == 'num-x' else ([mk(VALS), rng.choice(NPINTS)], z)
+        else:
+            k = rng.choice([1, 1, 2])
+            xs = [mk(VALS) for _ in range(k)]
+            sc = [rng.choice(NPINTS + NPINTS + NPFLOATS) for _ in range(rng.choice([1, 2, 2, 3]) if k == 1 else rng.choice([1, 2]))]
+            if any(isinstance(x, np.floating) for x in sc):
+                sc = [x if isinstance(x, np.floating) else rng.choice(NPSMALL) for x in sc]
+            if len(sc) >= 2 and rng.random() < 0.5:      # two narrow integers of one width next to one another: the fold meets them before a Series
+                sc[1] = type(sc[0])(sc[0])
+            shape = rng.choice(['nums-first', 'nums-first', 'nums-last', 'shuffled'])
+            lst = sc + xs if shape == 'nums-first' else xs + sc
+            if shape == 'shuffled':
+                rng.shuffle(lst)
+            if name in ('sum', 'mean', 'count') or rng.random() < 0.6:
+                a, b = lst, None
+            else:
+                cut = rng.randrange(1, len(lst))
+                a, b = (lst[:cut] if cut > 1 or rng.random() < 0.5 else lst[0]), (lst[cut:] if len(lst) - cut > 1 or rng.random() < 0.5 else lst[cut])
+            if b is None and name == 'sub':
+                a, b = lst[:-1] if len(lst) > 2 else lst[0], lst[-1]
+        yield dict(tag='npx/%s/%s/%s/%s/%s' % (name, shape, kind, how, m), lines=['(ops npx %s %s %s %s %s)' % (name, enc_in(a), enc_in(b), how, m)])
+
+
 def generate(rng, tier):
+    yield from gen_npscalars(rng, tier)
     yield from gen_reduce(rng, tier)
     yield from gen_mm_frames(rng, tier)
     yield from gen_mm_mixed(rng, tier)
@@ -565,6 +638,9 @@ def run_line(state, sx):
     if op == 'redx':       # lists of operands: the call against the left fold of the binary operator (the statement itself)
         bad = check_reduce(args[0], dec_in(args[1]), dec_in(args[2]), args[3], A.dec_method(args[4]), args[5])
         return 'violation ' + bad if bad else 'ok redx-checked'
+    if op == 'npx':        # scalars in numpy spellings: checked against the call with python numbers and against permutations (statement itself)
+        bad = check_np(args[0], args[1], args[2], args[3], A.dec_method(args[4]))
+        return 'violation ' + bad if bad else 'ok npx-checked'
     if op == 'mmx':        # min_ / max_ with one-column frames: checked against the statement itself
         bad = check_mm_mixed(args[0], dec_in(args[1]))
         return 'violation ' + bad if bad else 'ok mmx-checked'
@@ -578,7 +654,7 @@ def run_line(state, sx):
 
 
 def compare(case, i, line, ir, mr):
-    if line.startswith(('(ops frames ', '(ops aggx ', '(ops mmx ', '(ops redx ')):
+    if line.startswith(('(ops frames ', '(ops aggx ', '(ops mmx ', '(ops redx ', '(ops npx ')):
         return ir if ir.startswith('violation') else None
     if proto.same_reply(ir, mr):
         # same_reply compares (D ..) nodes as sets: the ORDER of the result columns of the operators (theorems
@@ -829,6 +905,49 @@ def check_reduce(op, a, b, how, method, cols):
         except Exception:
             pass
     return msg
+
+
+def check_np(name, sa, sb, how, method):
+    """scalars in numpy spellings (np.int8 .. np.float32, np.bool_, 0-d arrays): the operator / aggregate must answer what it answers
+    for the same numbers as python bool / int / float, and add_ / mul_ / df_sum / df_mean / df_count of a LIST must show the same
+    result whatever the order of the list (no fill method; 'ij' / 'oj': the index is the same set)"""
+    import warnings
+    f = _fn(name + '_' if name in OPS else 'df_' + name)
+    kw = dict(join=how, method=method)
+    a, b, pa, pb = dec_in(sa), dec_in(sb), dec_in(sa, False), dec_in(sb, False)
+    call = lambda x, y: f(x, **kw) if y is None else f(x, y, **kw)
+    with warnings.catch_warnings():
+        warnings.simplefilter('ignore')          # numpy WARNS (RuntimeWarning: overflow encountered in scalar multiply) - and carries on
+        try:
+            want = call(pa, pb)
+        except Exception as e:
+            return None                               # not an input of this law: the python spelling is not answered either
+        before = A.snapshot_tree([a, b])
+        try:
+            res = call(a, b)
+        except Exception as e:
+            return '%s of scalars in a numpy spelling raised %s: %s; the same numbers as python numbers give %s' % (f.__name__, type(e).__name__, str(e)[:100], _enc_any(want)[:200])
+        if not A.same_tree([a, b], before):
+            return 'input-modified'
+        got = _enc_any(res)
+        if got != _enc_any(want):
+            return '%s%s%s, the same numbers as python numbers give %s' % (f.__name__, NP_SPELLING, got[:300], _enc_any(want)[:300])
+        if name in ('add', 'mul', 'sum', 'mean', 'count') and method is None:
+            xs = _as_list(a) + _as_list(b)
+            for perm in (xs[::-1], xs[1:] + xs[:1]):
+                if len(xs) < 2:
+                    break
+                try:
+                    alt = f(list(perm), **kw)
+                except Exception as e:
+                    return '%s of the same operands in another order raised %s: %s' % (f.__name__, type(e).__name__, str(e)[:100])
+                if _enc_any(alt) != got:
+                    return '%s%s: %s, in the order %s it gives %s' % (f.__name__, NP_ORDER, got[:300], [type(x).__name__ for x in perm], _enc_any(alt)[:300])
+    return None
+
+
+NP_SPELLING = ' of scalars in a numpy spelling gives '
+NP_ORDER = ' of a list of operands depends on the order of the list'
 
 
 def _enc_any(r):
